@@ -21,3 +21,4 @@ Hypotheses: sizes < 2^64, XML ≤ 10 MiB (the reader's limit), the external pars
 obligation C, float text invertible on the values used.
 -/
 import E57.Proofs.Session
+import E57.Proofs.Closed
